@@ -118,6 +118,40 @@ theorem C33_model_refines_spec (s : State) (ok : Bool) (hk : KeysNodup s.roles)
     simp only [beq_iff_eq] at hel
     rw [hel]
 
+/-- The step form of the specification (what the harness evaluates on consecutive
+observations of the implementation): `specObs` after the operation **and** the reported
+configuration is the one the membership operation says (add leaves an `(id, voter)` entry
+and touches no other id; remove leaves none; update_config installs the list; the rest
+leave it alone). -/
+theorem C33_model_refines_spec_step (s : State) (ok₀ : Bool) (op : Op)
+    (hk : KeysNodup (step s op).roles) (hr : ∀ e ∈ (step s op).roles, e.1 ≤ probeMax) :
+    specStep (obs s ok₀) op (obs (stepWith cfgAdd s op).1 (stepWith cfgAdd s op).2) = true := by
+  have hobs := C33_model_refines_spec (step s op) (stepWith cfgAdd s op).2 hk hr
+  unfold specStep
+  rw [show (stepWith cfgAdd s op).1 = step s op from rfl, hobs, Bool.true_and]
+  cases op with
+  | add id v =>
+    simp only [obs, obsWith, step, stepWith, Bool.not_true, Bool.false_or, Bool.and_eq_true]
+    exact ⟨⟨cfgAdd_any s.nodes id v,
+      othersKept_of (fun n hn hne => mem_cfgAdd_of_ne hn hne)⟩,
+      othersKept_of (fun n hn hne => mem_of_mem_cfgAdd_ne hn hne)⟩
+  | remove id =>
+    simp only [obs, obsWith, step, stepWith, Bool.not_true, Bool.false_or, Bool.and_eq_true]
+    refine ⟨⟨?_, othersKept_of ?_⟩, othersKept_of ?_⟩
+    · rw [List.all_eq_true]
+      intro n hn
+      exact (List.mem_filter.mp hn).2
+    · intro n hn hne
+      exact List.mem_filter.mpr ⟨hn, by simpa using hne⟩
+    · intro n hn _
+      exact (List.mem_filter.mp hn).1
+  | markActive id => simp [obs, obsWith, step, stepWith]
+  | markInactive id => simp [obs, obsWith, step, stepWith]
+  | role id r => simp [obs, obsWith, step, stepWith]
+  | updateConfig ns =>
+    simp only [obs, obsWith, step, stepWith]
+    split <;> simp
+
 /-- … in particular after `ClusterManager::new` and any history over probed ids. -/
 theorem C33_reachable_roles_unique (ns : List NodeCfg) (rf : Nat) (s : State)
     (h : mk ns rf = some s) (ops : List Op) : KeysNodup (run s ops).roles :=
